@@ -64,3 +64,78 @@ package isaacstates
 //@   callsite Ballot requires locked(bb.l)
 //@   fnparam broadcastFunc requires a0 == bl
 //@   fnparam broadcastFunc requires !a0.SignFact().Node().Equal(bb.local) || bbset == 1 || (snd(bb.pool.Ballot(a0.Point().Point, a0.Point().Stage(), isaac.IsSuffrageConfirmBallotFact(a0.SignFact().Fact()))) && fst(bb.pool.Ballot(a0.Point().Point, a0.Point().Stage(), isaac.IsSuffrageConfirmBallotFact(a0.SignFact().Fact()))).SignFact().Fact().Hash().Equal(a0.SignFact().Fact().Hash()))
+
+// ---- C09: the state machine takes only allowed transitions ---------------------------
+//
+// The guard decides every switch request. Its result is nil (proceed with the
+// request), a switch context (proceed with that one instead) or an error built
+// here (the request has no effect / fails). errsite(r0) == "no effect".
+// dynamic dispatch (Go semantics, read off handler.go: both context types embed
+// baseSwitchContext, whose next() returns the field n)
+//@ axiom dispatch_syncing_next (A9): forall(switchContext(x), trigger(x.next()), typeis(x, SyncingSwitchContext) ==> x.next() == unbox(x, SyncingSwitchContext).baseSwitchContext.n)
+//@ axiom dispatch_handover_next (A9): forall(switchContext(x), trigger(x.next()), typeis(x, handoverSwitchContext) ==> x.next() == unbox(x, handoverSwitchContext).baseSwitchContext.n)
+
+// helpers of the guard: logging and broker lookups have no effect on the decision
+//@ func switchContextLog
+//@   trusted
+//@   pure
+//@ func (*States).HandoverYBroker
+//@   trusted
+//@   pure
+//@ func (*HandoverYBroker).IsAsked
+//@   trusted
+//@   pure
+//@ func (*States).AllowedConsensus
+//@   trusted
+//@   pure
+//@ func newSyncingSwitchContextWithVoteproof
+//@   prop C09
+//@   pure
+//@   ensures r0.baseSwitchContext.f == from && r0.baseSwitchContext.n == "SYNCING"
+//@ func emptySyncingSwitchContext
+//@   prop C09
+//@   pure
+//@   ensures r0.baseSwitchContext.f == from && r0.baseSwitchContext.n == "SYNCING"
+//@ func newHandoverSwitchContextFromOther
+//@   prop C09
+//@   pure
+//@   requires sctx != nil
+//@   ensures r0.baseSwitchContext.n == "HANDOVER"
+
+//@ func (*States).checkStateSwitchContext
+//@   prop C09
+//@   requires typeis(sctx, switchContext)
+//@   requires st != nil && sctx != nil && !errsite(sctx) && st.newHandlers != nil && st.Logging != nil && st.allowedConsensus != nil
+//@   ensures [stopped] current != nil && current.state() == "STOPPED" && !errsite(r0) ==> sctx.next() == "BOOTING" || sctx.next() == "BROKEN"
+//@   ensures [origin] current != nil && !errsite(r0) ==> sctx.from() == current.state() && sctx.next() != current.state() && has(st.newHandlers, sctx.next())
+//@   ensures [not-allowed] current != nil && !errsite(r0) && !st.AllowedConsensus() && current.state() != "HANDOVER" && (sctx.next() == "CONSENSUS" || sctx.next() == "JOINING") ==> (typeis(r0, SyncingSwitchContext) && unbox(r0, SyncingSwitchContext).baseSwitchContext.n == "SYNCING" && current.state() != "SYNCING") || (typeis(r0, handoverSwitchContext) && unbox(r0, handoverSwitchContext).baseSwitchContext.n == "HANDOVER")
+//@   ensures [redirects] !errsite(r0) && r0 != nil ==> r0 == sctx || (typeis(r0, SyncingSwitchContext) && unbox(r0, SyncingSwitchContext).baseSwitchContext.n == "SYNCING") || (typeis(r0, handoverSwitchContext) && unbox(r0, handoverSwitchContext).baseSwitchContext.n == "HANDOVER")
+//@   ensures [ignored] errsite(r0) ==> plainerr(r0) && !typeis(r0, switchContext)
+//@   ensures [redirect-is-context] !errsite(r0) && r0 != nil ==> typeis(r0, switchContext)
+//@   ensures [no-handover-when-allowed] current != nil && st.AllowedConsensus() && sctx.next() == "HANDOVER" ==> errsite(r0)
+
+// st.cs, the state the machine is in, is assigned only when the machine starts
+// (stopped handler) and by exitAndEnter.
+//@ writers States.cs (C09) exitAndEnter start NewStates
+
+// (A9) handlers are registered under their own state: newHandlers[k].new().state() == k
+//@ func (*States).exitAndEnter
+//@   prop C09
+//@   requires st != nil && sctx != nil && current != nil && st.Logging != nil && st.newHandlers != nil && has(st.newHandlers, sctx.next()) && st.newHandlers[sctx.next()] != nil
+//@   requires forall(string(k), has(st.newHandlers, k) && st.newHandlers[k] != nil ==> fst(st.newHandlers[k].new()) != nil ==> fst(st.newHandlers[k].new()).state() == k)
+//@   requires forall(string(k), has(st.newHandlers, k) && st.newHandlers[k] != nil && snd(st.newHandlers[k].new()) == nil ==> fst(st.newHandlers[k].new()) != nil)
+//@   modifies st.cs
+//@   ensures [entered] r2 == nil ==> st.cs != nil && st.cs.state() == sctx.next()
+//@   ensures [unchanged-or-next] r2 != nil ==> st.cs == old(st.cs) || (st.cs != nil && st.cs.state() == sctx.next())
+//@   callsite exit requires locked(st.stateLock)
+//@   callsite enter requires locked(st.stateLock)
+
+// every switch reported to the application is the state the machine is in
+//@ func (*States).switchState
+//@   prop C09
+//@   requires has(st.newHandlers, "SYNCING") && has(st.newHandlers, "HANDOVER") && typeis(sctx, switchContext)
+//@   requires st != nil && sctx != nil && !errsite(sctx) && st.cs != nil && st.args != nil && st.args.WhenStateSwitchedFunc != nil && st.Logging != nil && st.newHandlers != nil && st.allowedConsensus != nil
+//@   requires forall(string(k), has(st.newHandlers, k) ==> st.newHandlers[k] != nil)
+//@   requires forall(string(k), has(st.newHandlers, k) && st.newHandlers[k] != nil ==> fst(st.newHandlers[k].new()) != nil ==> fst(st.newHandlers[k].new()).state() == k)
+//@   requires forall(string(k), has(st.newHandlers, k) && st.newHandlers[k] != nil && snd(st.newHandlers[k].new()) == nil ==> fst(st.newHandlers[k].new()) != nil)
+//@   fnparam WhenStateSwitchedFunc requires st.cs != nil && st.cs.state() == a0
